@@ -74,7 +74,7 @@ Section KeyedProofs.
 
   Lemma step_inv : forall s a s' ps, sound_variant -> Inv s -> step s a = (s', ps) -> Inv s'.
   Proof.
-    intros s a s' ps Hsv [HC HB] H. destruct a as [|k fresh|k others|k|i bv prev|k|k v|i dp1|i|k others| |i]; cbn [Keyed.step] in H.
+    intros s a s' ps Hsv [HC HB] H. destruct a as [|k fresh|k others|k|i bv prev|k|k v|i dp1|i|k others| |i|k cv]; cbn [Keyed.step] in H; try unfold track_with in H.
     - destruct (s_sub s); inversion H; subst; split; auto. intros k ks Hc; discriminate.
     - destruct (negb (s_sub s)); [inversion H; subst; split; auto|].
       match type of H with (if ?c then _ else _) = _ => destruct c end; inversion H; subst s' ps; clear H; (split; [|exact HB]).
@@ -113,6 +113,10 @@ Section KeyedProofs.
       apply conn_upd_none; auto. intros k' Hk'. apply upd_other; auto.
     - destruct (s_keys s); inversion H; subst; (split; [|exact HB]); [exact HC|intros k' ks' Hc; discriminate].
     - inversion H; subst. split; auto.
+    - destruct (negb (s_sub s)); [inversion H; subst; split; auto|].
+      match type of H with (if ?c then _ else _) = _ => destruct c end; inversion H; subst s' ps; clear H; (split; [|exact HB]).
+      + intros k' ks Hc Hr. cbn in *. unfold upd in *. destruct (Nat.eqb k' k); [inversion Hc; reflexivity|apply HC; auto].
+      + intros k' ks Hc Hr. cbn in *. unfold upd in *. destruct (Nat.eqb k' k); [inversion Hc; subst; discriminate|apply HC; auto].
   Qed.
 
   Lemma inv_init : Inv init.
@@ -123,7 +127,7 @@ Section KeyedProofs.
     sound_variant -> Inv s -> step s a = (s', ps) -> In (PDelta k v base) ps -> s_held s k = Some base.
   Proof.
     intros s a s' ps k v base Hsv [HC HB] H Hin.
-    destruct a as [|k0 fresh|k0 others|k0|i bv prev|k0|k0 v0|i dp1|i|k0 others| |i]; cbn [Keyed.step] in H;
+    destruct a as [|k0 fresh|k0 others|k0|i bv prev|k0|k0 v0|i dp1|i|k0 others| |i|k0 cv]; cbn [Keyed.step] in H; try unfold track_with in H;
       try (split_step H; split_in Hin; cbn in Hin; intuition discriminate).
     destruct (nth_error (s_bc s) i) as [b|] eqn:En; [|inversion H; subst; destruct Hin].
     unfold deliver in H. cbn [s_conn s_held] in H.
@@ -145,7 +149,7 @@ Section KeyedProofs.
     (In (PFull k v) ps \/ exists base, In (PDelta k v base) ps) ->
     (exists ks, s_conn s k = Some ks /\ ks_ver ks < v) /\ s_conn s' k = Some (mkKs v true).
   Proof.
-    intros s i dp1 s' ps k v H Hin. cbn [Keyed.step] in H.
+    intros s i dp1 s' ps k v H Hin. cbn [Keyed.step] in H; try unfold track_with in H.
     destruct (nth_error (s_bc s) i) as [b|] eqn:En; [|inversion H; subst; destruct Hin as [[]|[b0 []]]].
     unfold deliver in H. cbn [s_conn s_held] in H.
     destruct (s_conn s (bc_key b)) as [ks|] eqn:Ec; [|inversion H; subst; destruct Hin as [[]|[b0 []]]].
@@ -165,7 +169,7 @@ Section KeyedProofs.
     k' = k /\ (if fresh then 0 else match s_held s k with Some h => h | None => 0 end) < v /\
     s_conn s' k = Some (mkKs v true) /\ s_held s' k = Some v.
   Proof.
-    intros s k fresh s' ps k' v H Hin. cbn [Keyed.step] in H.
+    intros s k fresh s' ps k' v H Hin. cbn [Keyed.step] in H; try unfold track_with in H.
     destruct (negb (s_sub s)); [inversion H; subst; destruct Hin|].
     match type of H with (if ?c then _ else _) = _ => destruct c eqn:Ec end; inversion H; subst s' ps; clear H; [|destruct Hin].
     destruct Hin as [Hin|[]]. inversion Hin; subst k' v.
@@ -173,19 +177,50 @@ Section KeyedProofs.
     split; auto. split; [exact Elt|]. cbn. rewrite !upd_same. auto.
   Qed.
 
+  Lemma trackv_push_newer : forall s k cv s' ps k' v,
+    step s (ATrackV k cv) = (s', ps) -> In (PFull k' v) ps ->
+    k' = k /\ cv < v /\ s_conn s' k = Some (mkKs v true) /\ s_held s' k = Some v.
+  Proof.
+    intros s k cv s' ps k' v H Hin. cbn [Keyed.step] in H; unfold track_with in H.
+    destruct (negb (s_sub s)); [inversion H; subst; destruct Hin|].
+    match type of H with (if ?c then _ else _) = _ => destruct c eqn:Ec end; inversion H; subst s' ps; clear H; [|destruct Hin].
+    destruct Hin as [Hin|[]]. inversion Hin; subst k' v.
+    apply andb_prop in Ec. destruct Ec as [_ Elt]. apply Nat.ltb_lt in Elt.
+    split; auto. split; [exact Elt|]. cbn. rewrite !upd_same. auto.
+  Qed.
+
+  (* a re-track with a client-supplied version never leaves the key delta-ready unless the reply itself
+     carried the payload: the next update is sent in full, whatever version the client claimed *)
+  Lemma trackv_not_ready : forall s k cv s' ps ks,
+    step s (ATrackV k cv) = (s', ps) -> s_sub s = true -> s_conn s' k = Some ks ->
+    (ps = [] /\ ks = mkKs cv false /\ s_held s' k = s_held s k) \/
+    (exists v, ps = [PFull k v] /\ cv < v /\ ks = mkKs v true /\ s_held s' k = Some v).
+  Proof.
+    intros s k cv s' ps ks H Hs Hc. cbn [Keyed.step] in H; unfold track_with in H. rewrite Hs in H. cbn [negb] in H.
+    match type of H with (if ?c then _ else _) = _ => destruct c eqn:Ec end; inversion H; subst s' ps; clear H;
+      cbn [s_conn s_held] in *; rewrite upd_same in *; inversion Hc; subst ks.
+    - right. eexists. split; [reflexivity|]. apply andb_prop in Ec. destruct Ec as [_ Elt]. apply Nat.ltb_lt in Elt.
+      split; [exact Elt|]. split; reflexivity.
+    - left. split; [reflexivity|]. split; reflexivity.
+  Qed.
+
   (* pushes of key updates only come from a delivery or a track reply *)
   Lemma push_sources : forall s a s' ps k v,
     step s a = (s', ps) -> (In (PFull k v) ps \/ exists base, In (PDelta k v base) ps) ->
-    (exists i dp1, a = ADeliver i dp1) \/ (exists fresh, a = ATrack k fresh).
+    (exists i dp1, a = ADeliver i dp1) \/ (exists fresh, a = ATrack k fresh) \/ (exists cv, a = ATrackV k cv).
   Proof.
     intros s a s' ps k v H Hin.
-    destruct a as [|k0 fresh|k0 others|k0|i bv prev|k0|k0 v0|i dp1|i|k0 others| |i]; cbn [Keyed.step] in H;
+    destruct a as [|k0 fresh|k0 others|k0|i bv prev|k0|k0 v0|i dp1|i|k0 others| |i|k0 cv]; cbn [Keyed.step] in H; try unfold track_with in H;
       try (split_step H; destruct Hin as [Hin|[b0 Hin]]; split_in Hin; cbn in Hin; intuition discriminate).
-    - right. destruct (negb (s_sub s)); [inversion H; subst; destruct Hin as [[]|[b0 []]]|].
+    - right. left. destruct (negb (s_sub s)); [inversion H; subst; destruct Hin as [[]|[b0 []]]|].
       match type of H with (if ?c then _ else _) = _ => destruct c end; inversion H; subst s' ps; clear H.
       + destruct Hin as [[Hin|[]]|[b0 [Hin|[]]]]; inversion Hin; subst. eauto.
       + destruct Hin as [[]|[b0 []]].
     - left. eauto.
+    - right. right. destruct (negb (s_sub s)); [inversion H; subst; destruct Hin as [[]|[b0 []]]|].
+      match type of H with (if ?c then _ else _) = _ => destruct c end; inversion H; subst s' ps; clear H.
+      + destruct Hin as [[Hin|[]]|[b0 [Hin|[]]]]; inversion Hin; subst. eauto.
+      + destruct Hin as [[]|[b0 []]].
   Qed.
 
   (* --- untrack / revoke / removal / epoch flip end the tracking of the key *)
@@ -194,7 +229,7 @@ Section KeyedProofs.
     (exists o, a = AUntrack k o) \/ (exists o, a = ARevoke k o) \/ a = APollRemoved k \/ a = AEpochFlip ->
     s_conn s' k = None \/ (s_conn s' k = s_conn s k /\ ps = []).
   Proof.
-    intros s a s' ps k H [[o ->]|[[o ->]|[->| ->]]]; cbn [Keyed.step] in H.
+    intros s a s' ps k H [[o ->]|[[o ->]|[->| ->]]]; cbn [Keyed.step] in H; try unfold track_with in H.
     - destruct (s_conn s k) eqn:E; inversion H; subst; [left; cbn; apply upd_same|right; split; [rewrite E|]; reflexivity].
     - destruct (s_conn s k) eqn:E; inversion H; subst; [left; cbn; apply upd_same|right; split; [rewrite E|]; reflexivity].
     - destruct (s_ent s k) eqn:E; inversion H; subst; [left; cbn; apply upd_same|right; split; reflexivity].
@@ -210,7 +245,7 @@ Section KeyedProofs.
     assert (G : forall v, (In (PFull k v) ps \/ exists base, In (PDelta k v base) ps) -> False).
     { intros v Hin. destruct (deliver_push_monotone _ _ _ _ _ _ _ H Hin) as [[ks [A _]] _]. congruence. }
     split; [intros v Hin; apply (G v); auto|]. split; [intros v base Hin; apply (G v); eauto|].
-    cbn [Keyed.step] in H. destruct (nth_error (s_bc s) i) as [b|]; [|inversion H; subst; auto].
+    cbn [Keyed.step] in H; try unfold track_with in H. destruct (nth_error (s_bc s) i) as [b|]; [|inversion H; subst; auto].
     unfold deliver in H. cbn [s_conn] in H.
     destruct (s_conn s (bc_key b)) as [ks|] eqn:Ec; [|inversion H; subst; auto].
     destruct (Nat.leb (bc_ver b) (ks_ver ks)); inversion H; subst; auto.
@@ -254,7 +289,7 @@ Section KeyedProofs.
               KeysInv (mkSt ent polls bc (upd (s_conn s) k0 v) sub held (add_tkey k0 (s_keys s)))).
     { intros k0 ent polls bc sub held v k Hk. cbn in *. unfold upd in Hk. apply in_add_tkey.
       destruct (Nat.eqb k k0) eqn:E; [apply Nat.eqb_eq in E; auto|right; apply HK; auto]. }
-    destruct a as [|k fresh|k others|k|i bv prev|k|k v|i dp1|i|k others| |i]; cbn [Keyed.step] in H.
+    destruct a as [|k fresh|k others|k|i bv prev|k|k v|i dp1|i|k others| |i|k cv]; cbn [Keyed.step] in H; try unfold track_with in H.
     - destruct (s_sub s); inversion H; subst; auto. intros k' Hk; cbn in Hk; congruence.
     - destruct (negb (s_sub s)); [inversion H; subst; auto|].
       match type of H with (if ?c then _ else _) = _ => destruct c end; inversion H; subst; apply Hadd.
@@ -269,6 +304,8 @@ Section KeyedProofs.
     - destruct (s_conn s k); inversion H; subst; auto.
     - destruct (s_keys s) eqn:Ek; inversion H; subst; intros k' Hk; cbn in Hk; [apply HK in Hk; rewrite Ek in Hk; auto|congruence].
     - inversion H; subst; auto.
+    - destruct (negb (s_sub s)); [inversion H; subst; auto|].
+      match type of H with (if ?c then _ else _) = _ => destruct c end; inversion H; subst; apply Hadd.
   Qed.
 
   Lemma keys_init : KeysInv init.
